@@ -92,6 +92,22 @@ CHECKS = {
              'Not addressed: on-disk PLY parser tables, general histories up to 50 calls, dis/asm/lift APIs.',
         note='Trusted: z3, SInt proxy, the admissibility predicate for memo flags (stated in evidence bounds). Clauses about the parser-table cache directory and CPython heap aliasing are outside the claim.',
         design='5/C12', engine='E2'),
+    'C17': dict(
+        level='model_checking',
+        technique='symbolic execution of the real decoder and getnextflow/getdstflow with a symbolic 32-bit stream offset and symbolic displacement bytes; SMT validity of the architectural target formula (z3)',
+        text='Arithmetic: every relative jcc/jmp/call/loop*/jecxz row is decoded from a stream positioned at a SYMBOLIC offset with symbolic displacement bytes; the solver proves '
+             'next = offset + length, the displacement width is the architectural one (rel8 / operand-size), and dst = (offset + length + sext(disp)) mod 2^opsize for all offsets (incl. near 2^32) and displacements. '
+             'Classification: on every path of the decoder exploration over the live opcode trie (symbolic bytes) the reported (breakflow, splitflow, dstflow) equals the architectural class of the decoded mnemonic.',
+        note='Trusted: z3, SInt/SBytes proxies, the 40-line classification table by mnemonic family (sys* excluded as the property says).',
+        design='5/C17', engine='E2'),
+    'C10': dict(
+        level='model_checking',
+        technique='symbolic execution of the real x86 decoder on symbolic byte strings (z3): exhaustive path sets per opcode row; witness replay for rendering/truncation/stream clauses',
+        text='Decoder: for the rows of the live opcode trie x prefix sets, prefixes||opcode||11 symbolic bytes run through the real x86mnemo.dis; on every path the outcome is None or an instruction, '
+             'no exception escapes, 0 < l <= len, no byte at index >= l is read (SBytes read monitor), the reported raw bytes equal the consumed input (SMT). At path witnesses (concrete, labelled so): both renderings, '
+             'every strict truncation is absent, stream offsets 0/1/5. Assembler totality: see DESIGN (token sequences), claimed only where built.',
+        note='Trusted: z3, proxies. Bounds: 11 symbolic bytes, <= 2 prefixes per set, SIB restricted to 8 representatives; rendering and truncation at witnesses only.',
+        design='5/C10', engine='E2'),
 }
 
 NOT_APPLICABLE = {
